@@ -62,6 +62,7 @@ class Interp(object):
         self.overrides = {}       # fn path -> python callable(interp, st, args) -> (ret, st)
         self.static_cells = {}
         self.firstset_of = {}
+        self.bv_cands = {}        # id(BV) -> (BV, frozenset of the only values it can take): discriminants of a symbolic enum value
         self.elem_preds = None    # while a list-loop body is probed: predicates met on the symbolic history element
         self.late_join = set()    # functions whose loop-free branches are joined only at the function exit (refinement)
         self._nz_depth = 0
@@ -480,6 +481,9 @@ class Interp(object):
             if v.known():
                 x = v.val()
                 return x, x
+            cd = self.bv_cands.get(id(v))
+            if cd is not None and cd[0] is v and cd[1]:
+                return min(cd[1]), max(cd[1])
             hi = 0
             lo = 0
             for i, b in enumerate(v.bits):
@@ -812,6 +816,14 @@ class Interp(object):
             return a
         return Top('unop ' + op)
 
+    @staticmethod
+    def _const_tree(v):
+        if isinstance(v, BV):
+            return v.known()
+        if isinstance(v, Ite):
+            return Interp._const_tree(v.a) and Interp._const_tree(v.b)
+        return False
+
     def cast(self, kind, v, ty):
         ti = self.tyinfo(ty) or {}
         if isinstance(v, Ite) and ti.get('k') in ('int', 'bool', 'char'):
@@ -822,7 +834,11 @@ class Interp(object):
             if isinstance(v, BV):
                 fill = v.bits[-1] if v.signed and v.w < n else C0
                 bits_ = (v.bits + (fill,) * n)[:n]
-                return BV(bits_, signed)
+                out = BV(bits_, signed)
+                cd = self.bv_cands.get(id(v))
+                if cd is not None and cd[0] is v and all(0 <= x < (1 << min(n, v.w)) for x in cd[1]):
+                    self.bv_cands[id(out)] = (out, cd[1])
+                return out
             if isinstance(v, Term):
                 lo, hi = self.rng(v)
                 if hi < (1 << n):
@@ -860,7 +876,12 @@ class Interp(object):
         if isinstance(v, Enum):
             return BV.const(self.discr_val(v.ty, v.var), 64, True)
         if isinstance(v, Ite):
-            return self.merge(v.c, self.discr(v.a), self.discr(v.b))
+            r = self.merge(v.c, self.discr(v.a), self.discr(v.b))
+            if isinstance(r, BV) and not r.known():
+                cands = self._leaf_discrs(v)
+                if cands is not None:
+                    self.bv_cands[id(r)] = (r, cands)
+            return r
         if isinstance(v, Tok):
             vs = self.variants(v.ty) if v.ty else None
             if not vs:
@@ -875,6 +896,15 @@ class Interp(object):
         if isinstance(v, Top):
             return v
         raise Undecided('discriminant of %r' % (v,))
+
+    def _leaf_discrs(self, v, depth=0):
+        """the discriminants of the Enum leaves of an Ite tree (None when a leaf is not a plain variant)"""
+        if isinstance(v, Enum):
+            return frozenset([self.discr_val(v.ty, v.var)])
+        if isinstance(v, Ite) and depth < 64:
+            a, b = self._leaf_discrs(v.a, depth + 1), self._leaf_discrs(v.b, depth + 1)
+            return None if a is None or b is None else (a | b)
+        return None
 
     def var_by_discr(self, ty, d):
         vs = self.variants(ty)
@@ -1080,6 +1110,23 @@ class Interp(object):
                     return v.items[k][1]
                 if k < len(v.items) and all(it[0] == 'elem' for it in v.items[:k + 1]):
                     return v.items[k][1]
+            if isinstance(idx, BV) and v.concrete() and v.items:
+                # a lookup table indexed by a value with a few unknown bits (`LETTERS[piece as usize]`): every in-range candidate
+                # (the bounds check before the access has excluded the others)
+                unk = [i for i, b in enumerate(idx.bits) if b.kind != 'c']
+                if len(unk) <= 4:
+                    base = sum(1 << i for i, b in enumerate(idx.bits) if b is C1)
+                    out = None
+                    cd = self.bv_cands.get(id(idx))
+                    only = cd[1] if cd is not None and cd[0] is idx else None
+                    for m in range(1 << len(unk)):
+                        val = base | sum((1 << unk[j]) for j in range(len(unk)) if (m >> j) & 1)
+                        if val >= len(v.items) or (only is not None and val not in only):
+                            continue
+                        r = v.items[val][1]
+                        out = r if out is None else self.merge(self.eq_const_bit(idx, val), r, out)
+                    if out is not None:
+                        return out
             raise Undecided('index %r of %r' % (idx, v))
         if isinstance(v, Ite):
             return self.merge(v.c, self.getindex(st, v.a, idx), self.getindex(st, v.b, idx))
